@@ -232,6 +232,11 @@ def index_path(P, R, pg):
         # selection sites
         n = 0
         for s in walk_own(pg.node):
+            if isinstance(s, ast.Return) and isinstance(s.value, ast.Call) and isinstance(s.value.func, ast.Attribute) and s.value.func.attr == 'take' \
+                    and s.value.args and norm(s.value.args[0]) == name:
+                n += 1
+                R.ok('C04.b', pg, s, 'rows are selected by position (take)')
+                continue
             if isinstance(s, ast.Return) and isinstance(s.value, ast.Subscript):
                 idx = norm(s.value.slice)
                 recv = s.value.value
